@@ -297,6 +297,10 @@ class Server(_Server_):
         )
         self.serializer = serializer
         delattr(self, 'id_to_local_proxy_obj')  # disable this
+        self.mutex = threading.RLock()
+        # Re-entrant, unlike the standard version: `create` runs the registered callable under
+        # this mutex, and the callable (e.g. the `__init__` of a hosted class) may call `managed`,
+        # which calls `create` again in the same thread.
 
     def _wrap_user_exc(self, exc):
         return RemoteException(exc)
